@@ -79,7 +79,8 @@ extern "C" int comments()
 {
   static const char* docs[] = {
     "<?xml version=\"1.0\"?><!-- c --><a/>", "<a><!-- c --></a>", "<a ><!--x--><b/><!-- y --></a>", "<!--a-b--><a x=\"1\"/>",
-    "<a><!-- c -->t</a>", "<?p?>\n<?q\n?><a/>" };
+    "<a><!-- c -->t</a>", "<?p?>\n<?q\n?><a/>",
+    "<?cond if ie\n<!-- ?>\n<a/>", "<?p x\r\n <!-- ?><a></a>" };      // inside a processing instruction "<!--" is data, also after a line break
   unsigned k = vf_pick(sizeof(docs) / sizeof(*docs));
   {
     Xml::Private parser; Xml::Element e;
@@ -170,8 +171,18 @@ extern "C" int copies()
   {
     Xml::Element e; e.type = "e"; e.attributes.append("k", "v");
     Xml::Variant a(e);
-    unsigned op = vf_pick(7);
-    if(op == 6)
+    unsigned op = vf_pick(8);
+    if(op == 7)
+    {
+      // the text that is parsed is owned by the result element (an attribute value holding an embedded document)
+      Xml::Element el; el.type = "msg"; el.attributes.append("payload", "<inner id='7'>hello</inner>");
+      Xml::Private parser;
+      bool ok = parser.parse(*el.attributes.find("payload"), el);
+      vf_assert(ok, "parse of a text owned by the result element succeeds");
+      vf_assert(el.type == "inner" && el.attributes.size() == 1 && *el.attributes.find("id") == "7", "parse of a text owned by the result element: element");
+      vf_assert(el.content.size() == 1 && el.content.front().toString() == "hello", "parse of a text owned by the result element: content");
+    }
+    else if(op == 6)
     {
       // a text assigned from a string that lives inside the value's own element payload
       Xml::Element el; el.type = "element type name"; Xml::Variant xv(el);
